@@ -51,7 +51,7 @@ REGISTRY = {
     "C14": {
         "engine": "engine_deser",
         "theorems": [(A + "CoerceThm", "Api.C14_monotone_partial"), (A + "CoerceThm", "Api.coerce_prim"), (A + "CoerceThm", "Api.coerce_instance"),
-                     (A + "CoerceThm", "Api.C14_not_monotone_union")],
+                     (A + "CoerceThm", "Api.C14_union_witness_repaired")],
         "partial": "monotonicity proved for everything but sets, general unions and field fall-back; numeral parsing (int(str), float(str)) enters as an oracle table",
         "assumptions": MODEL_ASSUMPTIONS + ["CPython's int(str) / float(str) / str(float) are oracle tables (CoerceEnv), modelled not verified"],
     },
@@ -76,6 +76,6 @@ for k, v in TEXT.items():
     REGISTRY[k]["level_note"] = LEVEL_NOTE
 
 # properties registered in MANIFEST.json (a property is claimed once its check is green on the unchanged tree)
-CLAIMED = ["C01", "C13"]
+CLAIMED = ["C01", "C02", "C03", "C08", "C13", "C14"]
 NOT_CLAIMED = {p: "check under construction in this session (model and theorems exist, engine being registered); not yet claimed"
-               for p in ["C02", "C03", "C04", "C05", "C06", "C07", "C08", "C09", "C10", "C11", "C12", "C14", "C15", "C16", "C17", "C18", "C19", "C20"]}
+               for p in ["C04", "C05", "C06", "C07", "C09", "C10", "C11", "C12", "C15", "C16", "C17", "C18", "C19", "C20"]}
